@@ -24,7 +24,7 @@ def make_copy(m, base):
         p = os.path.join(d, "toasty", f)
         s = open(p).read()
         if s.count(old) != 1:
-            raise SystemExit("mutant %s: pattern occurs %d times in %s" % (m["id"], s.count(old), f))
+            raise ValueError("mutant %s: pattern occurs %d times in %s" % (m["id"], s.count(old), f))
         open(p, "w").write(s.replace(old, new))
     if m.get("c_edits"):
         # emulate "edit the .pyx and rebuild": edit the generated C and recompile the extension into the scratch copy
@@ -57,7 +57,12 @@ def main():
         for m in MUTANTS:
             if sel and m["id"] not in sel and m["prop"] not in sel:
                 continue
-            d = make_copy(m, base)
+            try:
+                d = make_copy(m, base)
+            except ValueError as e:
+                rows.append((m["id"], m["prop"], "STALE " + str(e), 0, None, []))
+                print(rows[-1], flush=True)
+                continue
             env = dict(os.environ, VERIF_REPO=d, VERIF_EVIDENCE_DIR=os.path.join(base, "ev"), VERIF_REPLAY_DIR=os.path.join(base, "rp"))
             t0 = time.time()
             r = subprocess.run([os.path.join(V, "vcheck"), m["prop"], "--tier", tier], env=env, cwd=V, capture_output=True, text=True)
